@@ -169,6 +169,57 @@ def run_both(files, profile="release", verbose=False, outcome_only=False):
 # ------------------------------------------------------------------------------------------
 # well-formed families
 
+def order_cases(ctx, scale):
+    """sprites that make the ORDER of composition visible: many layers, in each frame a sparse
+    subset of them carries a 1x1 opaque cel of the layer's own colour (Normal mode), so the frame
+    pixel must be the colour of the highest layer of the subset.  Subset sizes and layer ids are
+    chosen around the sizes at which hash tables grow (3/4, 7/8, 14/15 entries; ids 8, 16, 32, 64)."""
+    rng = random.Random(ctx.seed * 4409 + scale)
+    files, expect = [], {}
+    def colour(l):
+        return bytes([(l * 37) % 256, (l * 91 + 5) % 256, (l * 13 + 101) % 256, 255])
+    for nl in (5, 9, 17, 33, 70):
+        for rep in range(2 if ctx.quick else 12):
+            nf = 12
+            frames = []
+            tops = []
+            for f in range(nf):
+                k = rng.choice([1, 2, 2, 3, 3, 4, 5, 7, 8, 9, 14, 15, 16])
+                subset = sorted(rng.sample(range(nl), min(k, nl)))
+                if f == 1:
+                    subset = sorted(set([1, nl - 1]))            # a low and the highest layer
+                if f == 2 and nl > 8:
+                    subset = [1, 8]
+                order = subset[:]
+                rng.shuffle(order)                               # chunk order is irrelevant
+                cels = [mk_chunk(0x2005, struct.pack("<HhhBH", l, 0, 0, 255, 0) + bytes(7) + struct.pack("<HH", 1, 1) + colour(l)) for l in order]
+                frames.append(cels)
+                tops.append(max(subset))
+            layers = [mk_layer(name=b"L%d" % l) for l in range(nl)]
+            cid = f"order/{nl}/{rep}"
+            files.append((cid, mk_header(nf, 1, 1) + mk_frame(layers + frames[0]) + b"".join(mk_frame(c) for c in frames[1:])))
+            expect[cid] = [colour(t) for t in tops]
+    return files, expect
+
+
+def order_extra(ctx, scale, res, files, model_obs, impl_obs):
+    ofiles, expect = order_cases(ctx, scale)
+    m, i = run_both(ofiles, verbose=True)
+    def orc(cid, data, impl, model):
+        if vlib.outcome(impl) != "ok":
+            return "a well-formed file did not load: " + vlib.outcome_detail(impl)
+        for l in impl:
+            w = l.split(" ")
+            if w[0] == "frameimg":
+                f = int(w[1])
+                px = bytes.fromhex(w[2].split(":")[3])[:4]
+                if px != expect[cid][f]:
+                    return f"frame {f}: pixel {px.hex()}, expected {expect[cid][f].hex()} (the colour of the highest layer with a cel)"
+        return None
+    compare_cases(res, ofiles, m, i, ["frameimg"], orc, what="composition order (sparse cels on many layers)")
+    res.distribution["order sprites"] = len(ofiles)
+
+
 def wf_routine(prefixes, gens, rule, oracle=must_load_oracle, corpus=True, extra=None, spec_backed=None, big=()):
     def run(ctx, scale):
         res = Result(rule)
@@ -204,7 +255,8 @@ def wf_routine(prefixes, gens, rule, oracle=must_load_oracle, corpus=True, extra
         for cid, data in files:
             if cid == "color-curve.aseprite":
                 continue
-            a, b = vlib.section(impl_obs[cid], prefixes + ["load"]), vlib.section(chk_obs.get(cid) or ["load missing"], prefixes + ["load"])
+            a = [canon_line(x) for x in vlib.section(impl_obs[cid], prefixes + ["load"])]
+            b = [canon_line(x) for x in vlib.section(chk_obs.get(cid) or ["load missing"], prefixes + ["load"])]
             res.evaluations += 1
             if a != b:
                 d = vlib.first_diff(a, b)
@@ -455,7 +507,7 @@ register("C01", wf_routine(STRUCT, [("struct", 300, 20000), ("plain", 100, 2000)
 register("C02", wf_routine(RENDER, [("render", 300, 10000), ("struct", 100, 2000)],
          "generated layer stacks (19 blend modes, opacities, hidden layers/groups, linked, tilemap, "
          "off-canvas cels); distinct = distinct frame-image observations",
-         spec_backed="C02.frameImage_spec (point-wise composition) with C03.blend_eq_ref", big=("layers",)))
+         spec_backed="C02.frameImage_spec (point-wise composition) with C03.blend_eq_ref", big=("layers",), extra=order_extra))
 register("C06", wf_routine(CELS, [("rgba", 120, 3000), ("gray", 120, 3000), ("indexed", 160, 4000)],
          "generated sprites in each pixel format (sparse palettes, alpha<255, all transparent-index "
          "values, background flag, raw and zlib, links); distinct = distinct cel observations",
@@ -605,6 +657,7 @@ def blend_routine(laws, rule):
             gen = wf_routine(["frameimg", "celA", "tilemap", "tileimg"], [("render", 120, 3000), ("tiles", 60, 1500), ("rgba", 40, 1000)], "",
                              corpus=False, spec_backed="C02.frameImage_spec / C06.celImage_spec / C08.tilemapImage_spec with C03.blend_eq_ref")(ctx, scale)
             res.merge(gen)
+            order_extra(ctx, scale, res, None, None, None)
         # the same pixel pairs with the source stored as a tilemap layer (the tilemap renderer has
         # its own blend dispatch)
         if scale == 1:
